@@ -410,33 +410,38 @@ def revive (g : Graph) (name : String) (x : Proxy) : Option Row → Option Proxy
         | none => none
       else some y
 
+/-- a new proxy is held when a hold was requested for it earlier, or when it lies beyond the hold point (then the
+hold is recorded); `hold_active_task` queues the replacement of the `tasks_to_hold` table -/
+def holdNew (s : State) (name : String) (p : Int) (y : Proxy) : State × Proxy :=
+  if s.tasksToHold.contains (name, p) then (dbPutHold s, y.reset (held := some true))
+  else match s.holdPoint with
+    | some hp => if p > hp then
+        (dbPutHold { s with tasksToHold := s.tasksToHold ++ [(name, p)] }, y.reset (held := some true))
+      else (s, y)
+    | none => (s, y)
+
+/-- absolute triggers are satisfied from the record of completed absolute outputs -/
+def absSat (g : Graph) (s : State) (name : String) (y : Proxy) : Proxy :=
+  match g.task? name with
+  | some t => if t.hasAbs && !y.prereqsSatisfied then s.absDone.foldl (fun z a => z.satisfyMe a) y else y
+  | none => y
+
 /-- `spawn_task` (single flow): consult the DB history of the instance, then build the proxy;
 a new proxy is held when a hold was requested for it earlier or it lies beyond the hold point -/
 def spawnTask (g : Graph) (s : State) (name : String) (p : Int) : State × Option Proxy :=
-  let hist := histOf s p name
-  if hist.isNone && p < g.start then (s, none)       -- warm start: pre-start instances count as run
+  if (histOf s p name).isNone && p < g.start then (s, none)       -- warm start: pre-start instances count as run
   else match mkProxy g name p with
     | none => (s, none)
     | some x =>
       -- `_load_historical_outputs`: no committed row: new rows are queued
-      let s := if hist.isNone then dbInsert s x else s
-      match revive g name x hist with
-      | none => (s, none)
+      let s1 := if (histOf s p name).isNone then dbInsert s x else s
+      match revive g name x (histOf s p name) with
+      | none => (s1, none)
       | some y =>
-        -- hold (requested earlier, or beyond the hold point)
-        let (s, y) :=
-          if s.tasksToHold.contains (name, p) then (dbPutHold s, y.reset (held := some true))
-          else match s.holdPoint with
-            | some hp => if p > hp then
-                (dbPutHold { s with tasksToHold := s.tasksToHold ++ [(name, p)] }, y.reset (held := some true))
-              else (s, y)
-            | none => (s, y)
-        -- satisfy absolute triggers from the record of completed absolute outputs
-        let y := match g.task? name with
-          | some t => if t.hasAbs && !y.prereqsSatisfied then s.absDone.foldl (fun z a => z.satisfyMe a) y else y
-          | none => y
+        let H := holdNew s1 name p y
+        let y2 := absSat g H.1 name H.2
         -- a task that has not run before gets its rows (again)
-        (if hist.isNone then dbInsert s y else s, some y)
+        (if (histOf s p name).isNone then dbInsert H.1 y2 else H.1, some y2)
 
 /-- `get_or_spawn_task` + `add_to_pool` as used by parentless spawning -/
 def spawnAndAdd (g : Graph) (s : State) (name : String) (p : Int) : State :=
@@ -561,15 +566,17 @@ def releaseAndSubmit (s : State) : State :=
 
 /-! ### Removal and spawning on outputs -/
 
+/-- the proxy leaves the pool; its object lives on as a transient one while the current op still refers to it -/
+def dropFromPool (s : State) (x : Proxy) : State :=
+  { s with pool := s.pool.filter (fun y => !(y.pt == x.pt && y.name == x.name)), ghosts := s.ghosts ++ [x] }
+
 /-- `remove` -/
 def remove (g : Graph) (s : State) (x : Proxy) : State :=
   let s := releaseHeldActive s x
   let x := (s.get? x.pt x.name).getD x
   let s := if !x.flows.isEmpty && x.runahead then spawnNextParentless g s x else s
-  let s := { s with pool := s.pool.filter (fun y => !(y.pt == x.pt && y.name == x.name)),
-                    ghosts := s.ghosts ++ [x] }
   -- the final `task_states` update of the (now transient) proxy, written to the DB before moving on
-  commitP g.poolAtRemove (dbQueue s .stateTransient x)
+  commitP g.poolAtRemove (dbQueue (dropFromPool s x) .stateTransient x)
 
 /-- `remove_if_complete` -/
 def removeIfComplete (g : Graph) (s : State) (x : Proxy) : State :=
@@ -589,51 +596,65 @@ def childrenOf (g : Graph) (x : Proxy) (out : String) : List Child :=
 
 def Proxy.suicideNow (x : Proxy) : Bool := !x.sui.isEmpty && x.sui.all Pre.isSatisfied
 
+/-- the absolute output of `spawn_on_output` is recorded and committed at once -/
+def recordAbs (g : Graph) (st : State) (atom : Atom) (isAbs : Bool) : State :=
+  if isAbs then
+    commitP g.poolAtAbs { st with absDone := addAbs st.absDone atom, q := { st.q with abs := st.q.abs ++ [atom] } }
+  else st
+
+/-- the child of `spawn_on_output`: the pooled instance, or a new one -/
+def findOrSpawnChild (g : Graph) (st : State) (c : Child) : State × Option Proxy :=
+  match st.get? c.pt c.name with
+  | some y => (st, some y)
+  | none => spawnTask g st c.name c.pt
+
+/-- `satisfy_me` of the targets of one child of `spawn_on_output`, collecting the suicides -/
+def satisfyTargets (atom : Atom) (targets : List (Int × String)) (acc : State × List (Int × String)) :
+    State × List (Int × String) :=
+  targets.foldl (fun (a : State × List (Int × String)) k =>
+    match a.1.get? k.1 k.2 with
+    | none => a
+    | some z =>
+      (a.1.put (z.satisfyMe atom),
+       if (z.satisfyMe atom).suicideNow && !a.2.contains k then a.2 ++ [k] else a.2)) acc
+
 /-- one child of `spawn_on_output`: record an absolute output, find or spawn the child, satisfy the
 prerequisite (for an absolute trigger: of every pooled instance of the child task), collect suicides -/
 def spawnChild (g : Graph) (p : Int) (n out : String) (acc : State × List (Int × String)) (c : Child) :
     State × List (Int × String) :=
-  let (st, sui) := acc
   let atom : Atom := ⟨p, n, out⟩
-  -- an absolute output is recorded and committed at once
-  let st := if c.isAbs then
-      commitP g.poolAtAbs { st with absDone := addAbs st.absDone atom, q := { st.q with abs := st.q.abs ++ [atom] } }
-    else st
-  let inPool := (st.get? c.pt c.name).isSome
-  let (st, child) : State × Option Proxy :=
-    match st.get? c.pt c.name with
-    | some y => (st, some y)
-    | none => spawnTask g st c.name c.pt
-  match child with
-  | none => (st, sui)
+  let st0 := recordAbs g acc.1 atom c.isAbs
+  let inPool := (st0.get? c.pt c.name).isSome
+  let R := findOrSpawnChild g st0 c
+  match R.2 with
+  | none => (R.1, acc.2)
   | some y =>
-    let st := if inPool then st else st.add (y.satisfyMe atom)
+    let st := if inPool then R.1 else R.1.add (y.satisfyMe atom)
     let targets : List (Int × String) :=
       if c.isAbs then
         let others := (st.pool.filter fun z => z.name == c.name).map fun z => (z.pt, z.name)
         if others.contains (c.pt, c.name) then others else others ++ [(c.pt, c.name)]
       else [(c.pt, c.name)]
-    targets.foldl (fun (a : State × List (Int × String)) k =>
-      match a.1.get? k.1 k.2 with
-      | none => a
-      | some z =>
-        let z := z.satisfyMe atom
-        (a.1.put z, if z.suicideNow && !a.2.contains k then a.2 ++ [k] else a.2)) (st, sui)
+    satisfyTargets atom targets (st, acc.2)
+
+/-- event-driven suicide: the collected tasks are removed -/
+def removeSuicides (g : Graph) (s : State) (ks : List (Int × String)) : State :=
+  ks.foldl (fun (st : State) k => match st.get? k.1 k.2 with
+    | some z => remove g st z
+    | none => st) s
 
 /-- `spawn_on_output` -/
 def spawnOnOutput (g : Graph) (s : State) (p : Int) (n : String) (out : String) : State :=
   match s.get? p n with
   | none => s
   | some x =>
-    let cs := if x.flows.isEmpty then [] else childrenOf g x out
-    let (s, suicides) := cs.foldl (spawnChild g p n out) (s, [])
-    let s := suicides.foldl (fun (st : State) k => match st.get? k.1 k.2 with
-      | some z => remove g st z
-      | none => st) s
-    let s := if suicides.isEmpty then s else commitP g.poolAtSuicide s     -- "update DB now in case of very quick respawn attempt"
-    match s.get? p n with
-    | some x' => removeIfComplete g s x'
-    | none => s
+    let R := (if x.flows.isEmpty then [] else childrenOf g x out).foldl (spawnChild g p n out) (s, [])
+    let s3 := removeSuicides g R.1 R.2
+    -- "update DB now in case of very quick respawn attempt"
+    let s4 := if R.2.isEmpty then s3 else commitP g.poolAtSuicide s3
+    match s4.get? p n with
+    | some x' => removeIfComplete g s4 x'
+    | none => s4
 
 /-! ### Messages -/
 
@@ -671,6 +692,57 @@ def spawnChildren (g : Graph) (s : State) (p : Int) (n : String) (out : String) 
     | none => s
   if transient then s else spawnOnOutput g s p n out
 
+/-- `get_incomplete_implied`: the earlier outputs implied by a message that the proxy has not completed yet -/
+def impliedOutputs (msg : String) (x : Proxy) : List String :=
+  (if msg == "succeeded" || msg == "failed" then ["submitted", "started"]
+   else if msg == "started" then ["submitted"] else []).filter fun m => !x.isDone m
+
+/-- the output of the message is completed (failures complete theirs later) -/
+def completeOutput (g : Graph) (x : Proxy) (msg : String) : Proxy × Option Bool :=
+  if msg == "submit-failed" || msg == "failed" then (x, some false) else setComplete g x msg
+
+/-- definitive failure: the failure output is completed with the status -/
+def failedProxy (g : Graph) (x : Proxy) (st : Status) (out : String) : Proxy :=
+  if x.status != st then (setComplete g (x.reset (status := some st)) out).1 else x.reset (status := some st)
+
+/-- the part of `process_message` that follows the implied outputs: the status change and the spawning that the
+message causes, for the proxy `x` (a transient object when `tr`) -/
+def handleMessage (g : Graph) (s : State) (p : Int) (n : String) (flag : Flag) (msg : String)
+    (completed : Option Bool) (x : Proxy) (tr : Bool) : State × Bool :=
+  if msg == "started" then
+    if flag == .received && x.status.rank > Status.running.rank then (s, true) else
+    -- submission was successful: the submission try number is reset
+    (spawnChildren g (store s { (x.reset (status := some .running)) with subTry := 0 } tr) p n "started" tr, false)
+  else if msg == "succeeded" then
+    (spawnChildren g (store s (x.reset (status := some .succeeded)) tr) p n "succeeded" tr, false)
+  else if msg == "failed" then
+    if flag == .received && x.status.rank > Status.failed.rank then (s, true) else
+    if x.timers && x.execTry < (match g.task? n with | some t => t.execRetries | none => 0) then
+      -- an execution retry is lined up: back to waiting behind a retry xtrigger
+      (store s { (x.reset (status := some .waiting)) with execTry := x.execTry + 1, retryWait := true } tr, false)
+    else
+    -- definitive failure
+    (spawnChildren g (store s (failedProxy g x .failed "failed") tr) p n "failed" tr, false)
+  else if msg == "submit-failed" then
+    if flag == .received && x.status.rank > Status.submitFailed.rank then (s, true) else
+    if x.timers && x.subTry < (match g.task? n with | some t => t.subRetries | none => 0) then
+      (store s { (x.reset (status := some .waiting)) with subTry := x.subTry + 1, retryWait := true } tr, false)
+    else
+    (spawnChildren g (store s (failedProxy g x .submitFailed "submit-failed") tr) p n "submit-failed" tr, false)
+  else if msg == "submitted" then
+    if flag == .received && x.status.rank ≥ Status.submitted.rank then (s, true) else
+    (spawnChildren g (if x.status == .preparing then
+        store s ((x.reset (status := some .submitted)).reset (queued := some false)) tr else s) p n "submitted" tr, false)
+  else if completed == some true then
+    (spawnChildren g s p n msg tr, false)
+  else (s, false)
+
+/-- `_process_message_check`: a received message of another job is ignored; a waiting task with a retry lined up
+ignores (late) messages; a transient object skips the checks -/
+def messageIgnored (x : Proxy) (tr : Bool) (flag : Flag) (sn : Nat) : Bool :=
+  (!tr && flag == .received && sn != x.submitNum) ||
+  (!tr && x.status == .waiting && x.live && (x.subTry > 0 || x.execTry > 0))
+
 /-- `process_message` for one (non-forced) message; returns the new state and whether a poll is
 requested.  `fuel` bounds the implied-output recursion (depth ≤ 3). -/
 def processMessage (g : Graph) : Nat → State → Int → String → Flag → Nat → String → State × Bool
@@ -678,64 +750,28 @@ def processMessage (g : Graph) : Nat → State → Int → String → Flag → N
   | fuel + 1, s, p, n, flag, sn, msg =>
     match lookup s p n with
     | none => (s, false)
-    | some (x, tr) =>
-      -- _process_message_check (a transient object skips the checks)
-      if !tr && flag == .received && sn != x.submitNum then (s, false) else
-      -- a waiting task with a retry lined up ignores (late) messages
-      if !tr && x.status == .waiting && x.live && (x.subTry > 0 || x.execTry > 0) then (s, false) else
-      -- complete the corresponding output
-      let (x, completed) :=
-        if msg == "submit-failed" || msg == "failed" then (x, some false)
-        else setComplete g x msg
-      let s := store s x tr
-      -- implied outputs first
-      let implied : List String :=
-        (if msg == "succeeded" || msg == "failed" then ["submitted", "started"]
-         else if msg == "started" then ["submitted"] else []).filter fun m => !x.isDone m
-      let s := implied.foldl (fun st m => (processMessage g fuel st p n .internal sn m).1) s
-      match lookup s p n with
-      | none => (s, false)
-      | some (x, tr) =>
-      if msg == "started" then
-        if flag == .received && x.status.rank > Status.running.rank then (s, true) else
-        -- submission was successful: the submission try number is reset
-        let s := store s { (x.reset (status := some .running)) with subTry := 0 } tr
-        (spawnChildren g s p n "started" tr, false)
-      else if msg == "succeeded" then
-        let s := store s (x.reset (status := some .succeeded)) tr
-        (spawnChildren g s p n "succeeded" tr, false)
-      else if msg == "failed" then
-        if flag == .received && x.status.rank > Status.failed.rank then (s, true) else
-        let maxTry := match g.task? n with | some t => t.execRetries | none => 0
-        if x.timers && x.execTry < maxTry then
-          -- an execution retry is lined up: back to waiting behind a retry xtrigger
-          let y := { (x.reset (status := some .waiting)) with execTry := x.execTry + 1, retryWait := true }
-          (store s y tr, false)
-        else
-        -- definitive failure
-        let y := x.reset (status := some .failed)
-        let (y, _) := if x.status != .failed then setComplete g y "failed" else (y, none)
-        let s := store s y tr
-        (spawnChildren g s p n "failed" tr, false)
-      else if msg == "submit-failed" then
-        if flag == .received && x.status.rank > Status.submitFailed.rank then (s, true) else
-        let maxTry := match g.task? n with | some t => t.subRetries | none => 0
-        if x.timers && x.subTry < maxTry then
-          let y := { (x.reset (status := some .waiting)) with subTry := x.subTry + 1, retryWait := true }
-          (store s y tr, false)
-        else
-        let y := x.reset (status := some .submitFailed)
-        let (y, _) := if x.status != .submitFailed then setComplete g y "submit-failed" else (y, none)
-        let s := store s y tr
-        (spawnChildren g s p n "submit-failed" tr, false)
-      else if msg == "submitted" then
-        if flag == .received && x.status.rank ≥ Status.submitted.rank then (s, true) else
-        let s := if x.status == .preparing then
-            store s ((x.reset (status := some .submitted)).reset (queued := some false)) tr else s
-        (spawnChildren g s p n "submitted" tr, false)
-      else if completed == some true then
-        (spawnChildren g s p n msg tr, false)
-      else (s, false)
+    | some xt =>
+      if messageIgnored xt.1 xt.2 flag sn then (s, false) else
+      -- complete the corresponding output, then the implied outputs first
+      let C := completeOutput g xt.1 msg
+      let s2 := (impliedOutputs msg C.1).foldl (fun st m => (processMessage g fuel st p n .internal sn m).1)
+        (store s C.1 xt.2)
+      match lookup s2 p n with
+      | none => (s2, false)
+      | some xt2 => handleMessage g s2 p n flag msg C.2 xt2.1 xt2.2
+
+/-- one received message of a task's batch: (state, poll requested so far) -/
+def processOne (g : Graph) (p : Int) (n : String) (acc : State × Bool) (m : Msg) : State × Bool :=
+  let R := processMessage g 4 acc.1 p n .received m.submitNum m.text
+  (R.1, acc.2 || R.2)
+
+/-- the queued messages of one task -/
+def processGroup (g : Graph) (st : State) (grp : (Int × String) × List Msg) : State :=
+  match st.get? grp.1.1 grp.1.2 with
+  | none => st                                   -- no proxy: job-only processing
+  | some _ =>
+    let R := grp.2.foldl (processOne g grp.1.1 grp.1.2) (st, false)
+    if R.2 then { R.1 with polls := R.1.polls ++ [(grp.1.1, grp.1.2)] } else R.1
 
 /-- group queued messages by task id in order of first arrival (`dict.setdefault`) -/
 def groupMsgs (q : List Msg) : List ((Int × String) × List Msg) :=
@@ -746,17 +782,7 @@ def groupMsgs (q : List Msg) : List ((Int × String) × List Msg) :=
 
 /-- `process_queued_task_messages` -/
 def processQueue (g : Graph) (s : State) : State :=
-  let groups := groupMsgs s.queue
-  let s := { s with queue := [] }
-  groups.foldl (fun (st : State) grp =>
-    let (p, n) := grp.1
-    match st.get? p n with
-    | none => st                                   -- no proxy: job-only processing
-    | some _ =>
-      let (st, poll) := grp.2.foldl (fun (acc : State × Bool) m =>
-          let (st', pl) := processMessage g 4 acc.1 p n .received m.submitNum m.text
-          (st', acc.2 || pl)) (st, false)
-      if poll then { st with polls := st.polls ++ [(p, n)] } else st) s
+  (groupMsgs s.queue).foldl (processGroup g) { s with queue := [] }
 
 /-! ### Stall and shutdown -/
 
@@ -820,18 +846,19 @@ def sweepQueue (s : State) : State :=
       else st
     | none => st) s
 
-/-- end of the main loop: `put_task_pool`, updated flags, DB commit, stall check -/
+/-- the updated flags of the scheduler and of every proxy are reset (a stall is over once anything was updated) -/
+def clearUpd (s : State) : State :=
+  { s with stalled := false, schedUpd := false, pool := s.pool.map fun x => { x with upd := false } }
+
+/-- end of the main loop: `put_task_pool`, updated flags, DB commit, stall check.
+(`update_data_structure` runs when anything was updated or the data store has pending deltas - any change of the
+pool produces some: the pool table is rewritten whenever it could differ.) -/
 def finishLoop (g : Graph) (s : State) : State :=
   let hasUpd := s.schedUpd || s.pool.any (·.upd)
-  let s := if s.pool.any (·.upd) then { s with restartWait := false } else s
-  -- `update_data_structure` runs when anything was updated or the data store has pending deltas (any change of the
-  -- pool produces some): the pool table is rewritten whenever it could differ
-  let s := putTaskPool s
-  let s := if hasUpd then
-      { s with stalled := false, schedUpd := false, pool := s.pool.map fun x => { x with upd := false } }
-    else s
-  let s := commit s                            -- process_workflow_db_queue
-  if !hasUpd && s.stopMode.isNone then checkStalled g s else s
+  let s1 := if s.pool.any (·.upd) then { s with restartWait := false } else s
+  let s2 := putTaskPool s1
+  let s3 := commit (if hasUpd then clearUpd s2 else s2)          -- process_workflow_db_queue
+  if !hasUpd && s3.stopMode.isNone then checkStalled g s3 else s3
 
 /-- `TaskPool.can_stop` -/
 def canStop (s : State) : Bool :=
@@ -930,30 +957,35 @@ def restoreProxy (g : Graph) (rows : List Row) (x : Proxy) : Option Proxy :=
                   queued := false, runahead := !final, retryWait := false, live := false,
                   upd := prep || final }
 
-/-- a new scheduler process started on the run directory: everything it knows comes from the committed database
-(`_load_pool_from_db`, `_set_workflow_params`, `configure`).  `launched` / `ncommit` are what the outside world saw
-of the current op and are kept for the observation. -/
-def startFrom (g : Graph) (s : State) : State :=
-  let d := s.cdb
+/-- the state a new scheduler process loads from the committed database (`_load_pool_from_db`,
+`_set_workflow_params`).  `launched` / `ncommit` are what the outside world saw of the current op and are kept for
+the observation. -/
+def loadDb (g : Graph) (s : State) : State :=
   -- stop point: DB `stopcp`, else flow.cylc, else the final point
-  let cfgStop : Option Int := match d.stopCp with | some p => some p | none => g.cfgStop
-  let pool := d.pool.filterMap (restoreProxy g d.rows)
-  let wait := pool.isEmpty || (match cfgStop with
-    | some sp => pool.all (fun x => x.pt > sp)
-    | none => false)
-  let s' : State :=
-    { pool := pool, cdb := d, absDone := d.abs,
-      tasksToHold := d.hold, holdPoint := d.holdCp, stopPoint := some (cfgStop.getD g.fcp),
-      restartWait := wait, paused := d.paused,
-      stopTask := d.stopTask, stopTaskFinished := false, schedUpd := true,
-      launched := s.launched, ncommit := s.ncommit }
-  -- `configure` re-applies the hold point after the pool is loaded ...
-  let s'' := match s'.holdPoint with
-    | some hp => setHoldPoint s' hp
-    | none => s'
-  -- ... and commits what start-up queued (this commit belongs to start-up, it is not counted)
-  let s3 := if g.poolAtStart then putTaskPool s'' else s''
+  let cfgStop : Option Int := match s.cdb.stopCp with | some p => some p | none => g.cfgStop
+  let pool := s.cdb.pool.filterMap (restoreProxy g s.cdb.rows)
+  { pool := pool, cdb := s.cdb, absDone := s.cdb.abs,
+    tasksToHold := s.cdb.hold, holdPoint := s.cdb.holdCp, stopPoint := some (cfgStop.getD g.fcp),
+    restartWait := pool.isEmpty || (match cfgStop with
+      | some sp => pool.all (fun x => x.pt > sp)
+      | none => false),
+    paused := s.cdb.paused,
+    stopTask := s.cdb.stopTask, stopTaskFinished := false, schedUpd := true,
+    launched := s.launched, ncommit := s.ncommit }
+
+/-- `configure` re-applies the hold point after the pool is loaded -/
+def reapplyHold (s : State) : State :=
+  match s.holdPoint with
+  | some hp => setHoldPoint s hp
+  | none => s
+
+/-- the commit at the end of start-up (`configure`): it belongs to start-up and is not counted -/
+def startCommit (g : Graph) (s : State) : State :=
+  let s3 := if g.poolAtStart then putTaskPool s else s
   { s3 with cdb := applyQ s3.cdb s3.q, q := {} }
+
+/-- a new scheduler process started on the run directory: everything it knows comes from the committed database -/
+def startFrom (g : Graph) (s : State) : State := startCommit g (reapplyHold (loadDb g s))
 
 /-- clean restart: `shutdown` resumes a paused workflow, writes the task pool once more and commits; then a new
 scheduler starts from the database -/
@@ -1005,10 +1037,7 @@ def step (g : Graph) (s : State) (op : Op) : State :=
       if pollMatches s p n sn then (processMessage g 4 s p n .polled sn text).1 else s
 
 /-- start-up of a new run: `load_from_point`, then `configure` commits what was queued -/
-def init (g : Graph) : State :=
-  let s0 := loadFromPoint g
-  let s := if g.poolAtStart then putTaskPool s0 else s0
-  { s with cdb := applyQ s.cdb s.q, q := {} }
+def init (g : Graph) : State := startCommit g (loadFromPoint g)
 
 /-- all states of a run: after start-up, then after each op -/
 def run (g : Graph) (ops : List Op) : List State :=
